@@ -108,6 +108,24 @@ func (nn *nonNil) Value(v ssa.Value, b *ssa.BasicBlock, depth int) bool {
 				}
 			}
 		}
+		if call, ok := x.Tuple.(*ssa.Call); ok && call.Call.StaticCallee() == nil && !call.Call.IsInvoke() {
+			// a call through a function value: every function it can be is a sound producer
+			callees := nn.P.Callees(call)
+			n := call.Call.Signature().Results().Len()
+			if len(callees) > 0 && n >= 2 && isErrorType(call.Call.Signature().Results().At(n-1).Type()) && x.Index < n-1 {
+				if e := resultValue(call, n-1); e != nil && knownNil(e, b) {
+					all := true
+					for _, callee := range callees {
+						if !nn.P.IsServitorFunc(callee) || !nn.producerSound(callee, x.Index) {
+							all = false
+						}
+					}
+					if all {
+						return true
+					}
+				}
+			}
+		}
 		if call, ok := x.Tuple.(*ssa.Call); ok {
 			if sc := call.Call.StaticCallee(); sc != nil && nn.P.IsServitorFunc(sc) {
 				if nn.freshReturning(sc, x.Index) {
